@@ -13,7 +13,7 @@ import subprocess
 import sys
 
 VERIF = os.path.dirname(os.path.dirname(os.path.abspath(__file__)))
-SCRATCH = os.path.expanduser("~/scratch/mutant-repo")
+SCRATCH = os.path.expanduser("~/scratch/mutant-repo-%d" % os.getpid())
 
 M = []
 
